@@ -75,6 +75,13 @@ func runC04Cut(t fataler, mode c03Mode, msgs []inMsg, frames []ref.Frame, ends [
 		return "handshake: " + err.Error()
 	}
 	lc.Peer.start(e)
+	// in a third of the cuts the transport hands over the last bytes together with its error
+	// (what arrived before the error arrived, and a message that is complete with them is complete)
+	withData := (cut+len(stream))%3 == 0
+	lc.End.SetErrWithLastBytes(withData)
+	if withData {
+		evid.For("C04").Class("transport-error-returned-together-with-the-last-bytes", 1)
+	}
 	lc.End.Write(stream[:cut])
 	lc.End.CloseWrite(kindErr)
 	// what a complete receiver has at this cut
